@@ -6,7 +6,7 @@ tier=${1:-quick}; shift
 ids=("$@"); [ ${#ids[@]} -eq 0 ] && ids=(C01 C02 C03 C04 C05 C06 C07 C08 C09 C10 C11 C12 C13 C14 C15 C16 C17 C18 C19 C20)
 out=evidence/summary_$tier.txt
 for c in "${ids[@]}"; do
-  line=$(./check $c $tier 2>/dev/null | grep -E "^$c $tier|VIOLATION|INFRA-ERROR" | tr '\n' ' ')
+  line=$(timeout ${VERIF_CHECK_TIMEOUT:-3000} ./check $c $tier 2>/dev/null | grep -E "^$c $tier|VIOLATION|INFRA-ERROR" | tr '\n' ' ')
   echo "$line"
   grep -v "^$c $tier" $out 2>/dev/null > $out.tmp; echo "$line" >> $out.tmp; sort $out.tmp > $out; rm -f $out.tmp
 done
